@@ -1,7 +1,93 @@
 import Labella.Model.QP
+import Labella.Proofs.LayoutSep
+import Labella.Proofs.QPLemmas
+import Mathlib.Algebra.Order.Field.Rat
+import Mathlib.Algebra.BigOperators.Group.List.Basic
+import Mathlib.Tactic.Ring
+import Mathlib.Tactic.Linarith
+import Mathlib.Tactic.FieldSimp
+/-! # C05 — the separation-constraint solver returns a feasible, certified-optimal solution
+
+What is proved for ALL instances (any constraint graph: DAGs, duplicates, redundant constraints, cycles; any
+positive weights and any scales): soundness of the executable certificate checker `QP.check`, via weak duality.
+What is proved for all CHAIN instances (every instance labella itself builds): the solver model is feasible and
+optimal (restated from C02).  For general DAG instances the implementation's result is validated per instance by
+the proved checker (see DESIGN.md, C05); the full statement "optimal for every DAG" is FALSE for the code as it is
+(known finding F1): `dag_counterexample`. -/
 namespace Labella.C05
 open Labella Labella.QP
 
-theorem placeholder_empty : cost ⟨[], []⟩ [] = 0 := by decide
+/-- exact feasibility of a candidate `z` -/
+def Feasible (I : Inst) (z : List ℚ) : Prop := ∀ c ∈ I.cons, 0 ≤ slack I z c
+
+/-- **Weak duality.**  For multipliers `lam ≥ 0` (one per constraint) the dual value is a lower bound on the cost
+of EVERY feasible assignment — whatever the constraint graph. -/
+theorem weak_duality (I : Inst) (lam : List ℚ) (hwf : wellFormedB I = true)
+    (hlen : lam.length = I.cons.length) (hpos : ∀ l ∈ lam, 0 ≤ l)
+    (z : List ℚ) (hz : z.length = I.vars.length) (hfeas : Feasible I z) :
+    dualValue I lam ≤ cost I z := by
+  have _ := hlen  -- not needed: `zip` truncates, a missing multiplier counts as 0
+  have hL := lagrangian_eq I lam hwf z hz
+  have hM := mult_slack_nonneg I lam z hpos hfeas
+  have hS : 0 ≤ ∑ i ∈ Finset.range I.vars.length,
+      vw I i * (pos z i - pos (dualPoint I lam) i) * (pos z i - pos (dualPoint I lam) i) := by
+    apply Finset.sum_nonneg
+    intro i hi
+    rw [mul_assoc]
+    exact mul_nonneg (vw_pos hwf (Finset.mem_range.mp hi)).le (mul_self_nonneg _)
+  linarith
+
+/-- **Soundness of the certificate checker.**  If `check I x lam tolFeas tolGap` accepts — for ANY list `lam`,
+wherever it came from — then `x` violates no constraint by more than `tolFeas`, and no feasible assignment
+whatsoever costs less than `cost x − tolGap`. -/
+theorem check_sound (I : Inst) (x lam : List ℚ) (tolFeas tolGap : ℚ)
+    (h : check I x lam tolFeas tolGap = true) :
+    (∀ c ∈ I.cons, -tolFeas ≤ slack I x c) ∧
+    ∀ z : List ℚ, z.length = I.vars.length → Feasible I z → cost I x ≤ cost I z + tolGap := by
+  unfold check at h
+  simp only [Bool.and_eq_true, beq_iff_eq, decide_eq_true_eq] at h
+  obtain ⟨⟨⟨⟨hwf, _hx⟩, hlam⟩, hfe⟩, hgap⟩ := h
+  refine ⟨?_, ?_⟩
+  · intro c hc
+    unfold feasibleB at hfe
+    rw [List.all_eq_true] at hfe
+    simpa using hfe c hc
+  · intro z hz hfeas
+    have hwd := weak_duality I (clip lam) hwf (by rw [clip_length, hlam]) (clip_nonneg lam) z hz hfeas
+    unfold gap at hgap
+    linarith
+
+/-- known finding F1 (witness replayed on the real code by the C05 check): on this 5-variable DAG with redundant
+tight constraints `solve()` returns `xRet` (cost 5·10⁹ + 125), although `xBetter` is feasible and costs 156 -/
+theorem dag_counterexample :
+    let I : Inst := { vars := [⟨9, 10000000000, 1⟩, ⟨10, 1, 1⟩, ⟨9, 10, 1⟩, ⟨7, 10000000000, 1⟩, ⟨0, 1, 1⟩],
+                      cons := [⟨2, 3, 0⟩, ⟨1, 4, 3⟩, ⟨0, 4, 1⟩, ⟨2, 4, 2⟩, ⟨1, 2, 1⟩] }
+    let xRet : List ℚ := [170000000111/20000000012, 130000000087/20000000012, 150000000099/20000000012,
+                          150000000099/20000000012, 190000000123/20000000012]
+    let xBetter : List ℚ := [9, 6, 7, 7, 10]
+    feasibleB I 0 xRet = true ∧ feasibleB I 0 xBetter = true ∧ cost I xBetter = 156 ∧ cost I xBetter < cost I xRet := by
+  decide +kernel
+
+/-- … and the certificate checker accepts the optimum that two further `satisfy()` passes reach, with the
+multipliers the code itself computes: that placement is therefore PROVED optimal for this instance -/
+theorem dag_counterexample_certified :
+    let I : Inst := { vars := [⟨9, 10000000000, 1⟩, ⟨10, 1, 1⟩, ⟨9, 10, 1⟩, ⟨7, 10000000000, 1⟩, ⟨0, 1, 1⟩],
+                      cons := [⟨2, 3, 0⟩, ⟨1, 4, 3⟩, ⟨0, 4, 1⟩, ⟨2, 4, 2⟩, ⟨1, 2, 1⟩] }
+    check I [89999999999/10000000001, 20000000030/3333333337, 23333333367/3333333337, 23333333367/3333333337, 100000000000/10000000001]
+            [160000000000/3333333337, 0, 200000000000/10000000001, 0, 26666666680/3333333337] 0 0 = true := by
+  decide +kernel
+
+/-- every chain instance (what `removeOverlap` builds): the solver model's result keeps every gap up to eps and
+no placement that keeps the gaps exactly is cheaper (C02) -/
+theorem chain_instances (eps : ℚ) (heps : 0 ≤ eps) (vars : List Chain.Item) (gaps : List ℚ)
+    (hlen : gaps.length + 1 = vars.length) (hw : ∀ v ∈ vars, 0 < v.w) :
+    Chain.SepBy eps gaps (Chain.solve eps vars gaps) ∧
+    ∀ zs : List ℚ, zs.length = vars.length → Chain.SepBy 0 gaps zs →
+      Chain.cost vars (Chain.solve eps vars gaps) ≤ Chain.cost vars zs := by
+  refine ⟨Chain.solve_feasible' eps heps vars gaps hw, ?_⟩
+  intro zs hz hfeas
+  have h1 := Chain.solve_optimal' eps heps vars gaps hlen hw zs hz hfeas
+  have h2 := wdist_nonneg vars (Chain.solve eps vars gaps) zs hw
+  linarith
 
 end Labella.C05
